@@ -157,30 +157,29 @@ Proof.
   - constructor; [reflexivity|exact IH].
 Qed.
 
-(* the fix keeps everything but blanks, provided the split's leading comment is
-   blank (i.e. the assignment is not commented out) and varnameOp is
-   varname + blanks + op *)
-Theorem spaceAfterVarname_blanks_only_partial raws vn sp op p0 raws' :
-  blankb (lc p0) = true -> blankb (sbv p0) = true -> blankb sp = true -> vo p0 = vn ++ sp ++ op ->
+(* the fix keeps everything but blanks (the leading comment of a commented-out
+   assignment included), provided varnameOp is varname + blanks + op *)
+Theorem spaceAfterVarname_blanks_only raws vn sp op p0 raws' :
+  blankb (sbv p0) = true -> blankb sp = true -> vo p0 = vn ++ sp ++ op ->
   fixSpaceAfterVarname raws vn sp op p0 = Ok raws' -> Forall2 blank_eq raws raws'.
 Proof.
-  intros B1 B2 B3 EV H. unfold fixSpaceAfterVarname in H.
+  intros B2 B3 EV H. unfold fixSpaceAfterVarname in H.
   destruct (is_nil sp); [inversion H; subst; apply Forall2_refl; reflexivity|].
   destruct (_ && _); [inversion H; subst; apply Forall2_refl; reflexivity|].
   destruct (_ && _); [inversion H; subst; apply Forall2_refl; reflexivity|].
-  destruct (alignWith (vn ++ op) (lc p0 ++ vo p0 ++ sbv p0)) as [after|] eqn:A; [|discriminate].
+  destruct (alignWith (lc p0 ++ vn ++ op) (lc p0 ++ vo p0 ++ sbv p0)) as [after|] eqn:A; [|discriminate].
   cbn [lift bind] in H. inversion H; subst; clear H.
   apply alignWith_spec in A as (a & -> & Ba).
   unfold replaceAfter. destruct (negb _); [apply Forall2_refl; reflexivity|].
   apply replace_first_blank_eq. unfold blank_eq. simpl app.
   rewrite EV, !strip_blanks_app.
-  rewrite (strip_blanks_blank _ B1), (strip_blanks_blank _ B2), (strip_blanks_blank _ B3), (strip_blanks_blank _ Ba).
+  rewrite (strip_blanks_blank _ B2), (strip_blanks_blank _ B3), (strip_blanks_blank _ Ba).
   simpl. rewrite !app_nil_r. reflexivity.
 Qed.
 
-(* ... and it does not: a commented-out assignment loses its comment marker *)
+(* a commented-out assignment keeps its comment marker (it did not before /repo 42e6bf1) *)
 Definition sav_raws : list str := [[35; 86; 32; 61; 9; 118]%N].             (* "#V =\tv" *)
 Definition sav_parts : parts := mkParts [35]%N [86; 32; 61]%N [9]%N [118]%N [] [].
-Lemma spaceAfterVarname_drops_comment :
-  fixSpaceAfterVarname sav_raws [86]%N [32]%N [61]%N sav_parts = Ok [[86; 61; 9; 118]%N].   (* "V=\tv" *)
+Lemma spaceAfterVarname_keeps_comment :
+  fixSpaceAfterVarname sav_raws [86]%N [32]%N [61]%N sav_parts = Ok [[35; 86; 61; 9; 118]%N].   (* "#V=\tv" *)
 Proof. vm_compute. reflexivity. Qed.
